@@ -254,8 +254,14 @@ def model_op(case):
     if pp:
         exp, act = pp(exp), pp(act)
     pats = o.get('ignore_patterns') or []
-    # lines on which patterns may be evaluated: any line of either side (raw)
-    table = pat_table(pats, act + exp)
+    # lines on which patterns may be evaluated: any line of either side, as compared (after the stripping requested)
+    def norm(l):
+        if o.get('lstrip'):
+            l = l.lstrip()
+        if o.get('rstrip'):
+            l = l.rstrip()
+        return l
+    table = pat_table(pats, [norm(l) for l in act + exp] + act + exp)
     return {'op': 'c04.check_strings',
             'opts': {'lstrip': bool(o.get('lstrip')), 'rstrip': bool(o.get('rstrip')),
                      'ignore_substrings': o.get('ignore_substrings') or [],
@@ -427,7 +433,7 @@ def spec_agree(case, drop_trailing_empty=False, perm_raw=False):
     for a, e in zip(act, exp):
         if norm(a) == norm(e):
             continue
-        if any(s in e for s in subs):
+        if any(s in norm(e) for s in subs):     # (the reference line as compared: after the stripping requested)
             continue
         if pats and doc_pat_equiv(norm(a), norm(e), pats):
             continue
